@@ -9,7 +9,10 @@ for n in sorted(os.listdir(os.path.join(ROOT, "seeded"))):
         continue
     m = json.load(open(p))
     det = m.get("detection", {}).get("results", {})
-    rows.append((n, n.split("_")[0], ", ".join("%s:%s" % (k, v["result"]) for k, v in det.items()) or "not run",
+    res = ", ".join("%s:%s" % (k, v["result"]) for k, v in det.items()) or "not run"
+    if "status" in m.get("rebased_after_fix_697888f", {}):
+        res += " (on the tree at fda4fee; obsolete since fix 697888f, see meta.json)"
+    rows.append((n, n.split("_")[0], res,
                  (m.get("needs_to_manifest") or m.get("summary") or "")[:160].replace("\n", " ").replace("|", "/")))
 with open(os.path.join(ROOT, "seeded", "SUMMARY.md"), "w") as f:
     f.write("# Seeded changes (written by independent sub-agents, confirmed in a scratch worktree, then run against the quick checks)\n\n")
